@@ -136,10 +136,13 @@ package dawn
 //@   ensures n_body == old(n_body) + 1 && body_ok == (err == nil) && body_data == data
 //@   modifies heap, n_body, body_ok, body_data
 
+//   n_depeval - dependency evaluations requested from the engine by this goroutine
+//@ ghost n_depeval int threadlocal = 0
 //@ func (runner.Engine).EvaluateTargets
+//@   ensures n_depeval == old(n_depeval) + 1
 //@   ensures len(result) == len(labels)
 //@   ensures forall j: int :: 0 <= j && j < len(result) ==> (result[j].Error == nil ==> istype(result[j].Target, "*dawn.runTarget"))
-//@   modifies heap
+//@   modifies heap, n_depeval
 
 //@ func (*dawn.Project).saveTargetInfo
 //@   trusted
@@ -163,7 +166,8 @@ package dawn
 //@   callsite TargetUpToDate: assert skip-sound: !proj.always && depsUpToDate && upToDate && !info.Rerun
 //@   callsite TargetEvaluating: assert not-skippable: proj.always || !depsUpToDate || !upToDate || info.Rerun
 //@   callsite evaluate: assert after-evaluating: phase == 1 && !proj.dryrun
-//@   modifies heap, phase, was_eval, n_body, body_ok, body_data, n_save, saved_rerun, saved_data, saved_deps
+//@   callsite upToDate: assert own-check-after-dependencies: n_depeval == old(n_depeval) + 1
+//@   modifies heap, n_depeval, phase, was_eval, n_body, body_ok, body_data, n_save, saved_rerun, saved_data, saved_deps
 //@   loop 0: invariant phase == 0 && !was_eval && n_body == old(n_body) && n_save == old(n_save)
 //@   loop 0: invariant depData != nil && proj != nil
 //@   loop 0: step dep-blamed: when !depsUpToDate && old(depsUpToDate) ensures !ok || dep.Target.(*dawn.runTarget).changed || newData != prevData
